@@ -184,6 +184,28 @@ impl<'a> WorkerState<'a> {
 	}
 }
 
+/// Runs `kverif replay <ID> <witness>` in a child; `Some(true)` if it is still running after
+/// `limit` (the hang reproduces), `Some(false)` if it ended by itself.
+fn probe_hang(prop: &dyn Property, witness: &Path, limit: Duration) -> Option<bool> {
+	let exe = std::env::current_exe().ok()?;
+	let mut child = Command::new(exe).arg("replay").arg(prop.id()).arg(witness).stdout(Stdio::null()).stderr(Stdio::null()).spawn().ok()?;
+	let start = Instant::now();
+	loop {
+		match child.try_wait() {
+			Ok(Some(_)) => return Some(false),
+			Ok(None) => {
+				if start.elapsed() > limit {
+					let _ = child.kill();
+					let _ = child.wait();
+					return Some(true);
+				}
+				std::thread::sleep(Duration::from_millis(20));
+			}
+			Err(_) => return None,
+		}
+	}
+}
+
 fn shard_rng(seed: u64, shard: usize, id: &str) -> TestRng {
 	let mut bytes = [0u8; 32];
 	bytes[..8].copy_from_slice(&seed.to_le_bytes());
@@ -252,6 +274,18 @@ pub fn worker(prop: &dyn Property, tier: Tier, seed: u64, shard: usize, nshards:
 					continue;
 				}
 			};
+			if !k.fixed && k.signature == "hang" {
+				// a known hang is replayed in a child process under a short limit
+				match probe_hang(prop, &path, Duration::from_secs(4)) {
+					Some(true) => {
+						println!("KNOWN-FINDING: property={} {} [signature={}]", prop.id(), k.what, k.signature);
+						*st.res.known_reproduced.entry(k.signature.clone()).or_insert(0) += 1;
+					}
+					Some(false) => println!("NOTE {} known finding no longer reproduces: {} ({})", prop.id(), k.signature, k.witness),
+					None => st.res.inconclusive.push("could not run the hang probe".into()),
+				}
+				continue;
+			}
 			let mut ctx = Ctx::new(tier);
 			ctx.include_known = true;
 			let r = run_case(prop, &tape, &mut ctx);
@@ -546,8 +580,9 @@ pub fn replay(prop: &dyn Property, path: &Path, tier: Tier) -> i32 {
 	let mut ctx = Ctx::new(tier);
 	ctx.include_known = include_known;
 	ctx.want_desc = true;
+	ctx.echo_desc = true;
+	aux_watchdog(prop);
 	let r = run_case(prop, &tape, &mut ctx);
-	println!("case: {}", ctx.desc);
 	match r {
 		Ok(info) => {
 			println!("PASS nontrivial={} classes={:?}", info.nontrivial, info.classes);
@@ -561,10 +596,22 @@ pub fn replay(prop: &dyn Property, path: &Path, tier: Tier) -> i32 {
 	}
 }
 
+
+fn aux_watchdog(prop: &dyn Property) {
+	let id = prop.id().to_string();
+	monitor::start_watchdog(Duration::from_secs(prop.case_time_limit_s()), move |tape, elapsed| {
+		let path = std::env::temp_dir().join(format!("kverif-hang-{}-{:016x}.json", id, tape_hash(&tape)));
+		let v = json!({"property": id, "seed": 0, "tape": tape, "case": "(hang)", "failure": {"oracle": "returns-promptly", "signature": "hang", "detail": format!("{elapsed:?}")}});
+		let _ = std::fs::write(&path, serde_json::to_string_pretty(&v).unwrap());
+		println!("HANG: case still running after {elapsed:?}; tape saved to {}", path.display());
+	});
+}
+
 /// Searches (with known classes included) for a tape whose failure has the given signature and
 /// writes the shrunk tape as a witness file. Used when building / refreshing KNOWN_FINDINGS.txt.
-pub fn find_signature(prop: &dyn Property, sig_prefix: &str, seed: u64, max_cases: u64, out: &Path) -> i32 {
+pub fn find_signature(prop: &dyn Property, sig_prefix: &str, seed: u64, max_cases: u64, out: &Path, include_known: bool) -> i32 {
 	monitor::install_panic_hook();
+	aux_watchdog(prop);
 	let tier = Tier::Quick;
 	let config = Config {
 		cases: max_cases as u32,
@@ -577,7 +624,7 @@ pub fn find_signature(prop: &dyn Property, sig_prefix: &str, seed: u64, max_case
 	let seen: RefCell<std::collections::BTreeMap<String, u64>> = RefCell::new(Default::default());
 	let matches = |tape: &[u32]| -> Option<Failure> {
 		let mut ctx = Ctx::new(tier);
-		ctx.include_known = true;
+		ctx.include_known = include_known;
 		match run_case(prop, tape, &mut ctx) {
 			Err(f) => {
 				*seen.borrow_mut().entry(f.sig.clone()).or_insert(0) += 1;
@@ -600,8 +647,18 @@ pub fn find_signature(prop: &dyn Property, sig_prefix: &str, seed: u64, max_case
 	match result {
 		Err(TestError::Fail(_, tape)) => {
 			let (small, _) = shrink(tape, |c| matches(c).is_some(), 5000);
-			let f = matches(&small).unwrap();
-			let desc = describe(prop, &small, tier, true);
+			let mut f = None;
+			for _ in 0..8 {
+				f = matches(&small);
+				if f.is_some() {
+					break;
+				}
+			}
+			let Some(f) = f else {
+				println!("shrunk tape does not reproduce reliably (nondeterministic case)");
+				return 1;
+			};
+			let desc = describe(prop, &small, tier, include_known);
 			let v = replay_json(prop, seed, &small, &desc, &f);
 			if let Some(dir) = out.parent() {
 				let _ = std::fs::create_dir_all(dir);
@@ -624,6 +681,7 @@ pub fn find_signature(prop: &dyn Property, sig_prefix: &str, seed: u64, max_case
 /// (exploration aid, not a registered check).
 pub fn survey(prop: &dyn Property, seed: u64, cases: u64, include_known: bool) -> i32 {
 	monitor::install_panic_hook();
+	aux_watchdog(prop);
 	let tier = Tier::Quick;
 	let config = Config {
 		cases: cases as u32,
@@ -666,5 +724,39 @@ pub fn survey(prop: &dyn Property, seed: u64, cases: u64, include_known: bool) -
 		let d: String = d.chars().take(300).collect();
 		println!("  {n:6} {s}\n         e.g. {d}");
 	}
+	0
+}
+
+/// Shrinks a tape whose case hangs: candidates run in child processes under a short limit.
+pub fn shrink_hang(prop: &dyn Property, input: &Path, out: &Path, limit_s: u64) -> i32 {
+	let tape = match read_tape(input) {
+		Ok(t) => t,
+		Err(e) => {
+			eprintln!("{e}");
+			return 2;
+		}
+	};
+	let include_known = input.components().any(|c| c.as_os_str() == "known");
+	let dir = out.parent().map(|p| p.to_path_buf()).unwrap_or_else(|| PathBuf::from("."));
+	let _ = std::fs::create_dir_all(&dir);
+	let cand_path = dir.join(format!(".cand-{}.json", std::process::id()));
+	let _ = include_known;
+	let (small, evals) = shrink(
+		tape,
+		|cand| {
+			let v = json!({"property": prop.id(), "seed": 0, "tape": cand});
+			std::fs::write(&cand_path, v.to_string()).unwrap();
+			probe_hang(prop, &cand_path, Duration::from_secs(limit_s)) == Some(true)
+		},
+		400,
+	);
+	let _ = std::fs::remove_file(&cand_path);
+	let v = json!({
+		"property": prop.id(), "seed": 0, "tape": small,
+		"case": "(case does not return; replay prints the decoded program before running it)",
+		"failure": {"oracle": "returns-promptly", "signature": "hang", "detail": format!("still running after {limit_s} s")},
+	});
+	std::fs::write(out, serde_json::to_string_pretty(&v).unwrap()).unwrap();
+	println!("shrunk to {} entries in {} evaluations -> {}", small.len(), evals, out.display());
 	0
 }
